@@ -53,7 +53,8 @@ def _dc(g, L, start, delta, ptype):
 
 
 def job_conf(job):
-    seed, triples, lab, lab2, tier, nodes = job
+    seed, triples, lab, lab2, tier, nodes = job[:6]
+    mode = job[6] if len(job) > 6 else "mixed"
     rng = random.Random(seed)
     known = list(nodes)
     L = core.labeling(lab).prime(max(known) + 1)
@@ -61,7 +62,7 @@ def job_conf(job):
     L2.shift = L.shift
     ts = sorted({t for (_, _, t) in triples})
     grid = (min(ts) - 1, max(ts) + 2) if ts else (-1, 2)
-    labels = {n: rng.choice(["x", "y"]) for n in known}
+    labels = {n: (rng.choice(["x", "y"]) if mode == "mixed" else "x") for n in known}
     ren = {"x": "second", "y": "first"}
     g = _labelled(False, triples, L, rng, known, labels)
     gv = _labelled(False, triples, L, rng, known, {n: ren[v] for n, v in labels.items()})
@@ -69,7 +70,10 @@ def job_conf(job):
     g1 = _labelled(False, triples, L, rng, known, {n: "z" for n in known})
     obs = core.observe(g, L, known, grid)
     combos = [(s, d, p) for s in range(grid[0], grid[1]) for d in range(0, grid[1] - grid[0]) for p in PTYPES]
-    if tier == "quick":
+    if mode == "one":
+        # one-label graphs over the whole snapshot range, every path type (exact oracle: 1 iff the node reaches another)
+        combos = [(ts[0], ts[-1] - ts[0], p) for p in PTYPES] if ts else []
+    elif tier == "quick":
         combos = rng.sample(combos, min(len(combos), 8))
     else:
         combos = rng.sample(combos, min(len(combos), 40))
@@ -80,7 +84,7 @@ def job_conf(job):
              "rv": _dc(gv, L, s, d, p)[1], "rn": _dc(gn, L2, s, d, p)[1], "one": _dc(g1, L, s, d, p)[1]}
         es.append(e)
     ss = []
-    for (d, p) in rng.sample([(d, p) for d in range(0, 3) for p in PTYPES], 2 if tier == "quick" else 6):
+    for (d, p) in rng.sample([(d, p) for d in range(0, 3) for p in PTYPES], 0 if mode == "one" else (2 if tier == "quick" else 6)):
         s = {"delta": d, "ptype": p, "sl": [], "per": []}
         try:
             with contextlib.redirect_stderr(io.StringIO()):   # progress bars
@@ -130,7 +134,13 @@ def run(prop, tier, seed):
                 tr.add((b, a, t))
         if tr:
             jobs.append((rng.randrange(1 << 30), sorted(tr), "int", "str", "quick", list(range(1, nn + 1))))
-    chk.run_jobs(job_conf, jobs, "conf", chunk=128)
+    # 4 nodes, every pair present at no or exactly one instant of 0..3 (15,625 graphs): one-label oracle
+    graphs4 = [tr for (d, tr) in _graphs(chk, "MC_paths_sparse4_gen.cfg" if tier == "quick" else "MC_paths_sparse4.cfg") if tr]
+    if tier == "quick":
+        graphs4 = rng.sample(graphs4, 1800)
+    for tr in graphs4:
+        jobs.append((rng.randrange(1 << 30), tr, "int", "str", tier, [1, 2, 3, 4], "one"))
+    chk.run_jobs(job_conf, jobs, "conf", chunk=512)
     chk.assumptions = [
         "TLC, the CommunityModules and the JSON bridge are correct",
         "scores are logged scaled by 10^6 and rounded; two scores agree when they differ by at most 2 units",
